@@ -125,8 +125,12 @@ func (w *dnsWorld) c18Known(name int, qtype uint16) string {
 		}
 		odMax, _ := e.originalDeadlineMax() // answers mixing TTLs: between the shortest and the longest nothing is demanded
 		switch {
-		case !e.removed && now < od-2*time.Second:
+		case !e.removed && now < od-2*time.Second && now > e.insertedAt:
 			return "yes"
+		case !e.removed && now < od-2*time.Second:
+			// stored at this very instant: the resolution that produced it is still running
+			// (the entry is published a few operations before it is registered as known)
+			res = "maybe"
 		case now < odMax+2*time.Second:
 			res = "maybe" // near the boundary, or removed early (eviction / reject drops the knowledge)
 		}
